@@ -430,7 +430,7 @@ func (r *run) finish(label string) {
 
 func partA(rep *lib.Report) {
 	rnd := lib.Rand("c15-gen")
-	n := 400
+	n := 300
 	if lib.Thorough() {
 		n = 2500
 	}
